@@ -21,14 +21,14 @@ def patched_constants(c):
 
 
 def layer_short(c, b, replay=None):
-    c.run_layer(b, "TestVerif_C04_short", "short", deadline_s=c.pick(100, 600), replay=replay, env={"GOMAXPROCS": "1"},
+    c.run_layer(b, "TestVerif_C04_short", "short", deadline_s=c.pick(150, 600), replay=replay, env={"GOMAXPROCS": "1"},
                 rule="real constants: every list of <= %d lines over the 12-line pool (thorough: + its --tail 2 variant) x tiebreak lists x 4 queries x sort x tac "
                      "x distinct slicings for partitions {1,2,3,32} x every order of probing the merged list; evaluations = Matcher.scan runs, "
                      "states = snapshots, non-trivial = expected order differs from input order" % c.pick(4, 5))
 
 
 def layer_scaled(c, b, replay=None):
-    c.run_layer(b, "TestVerif_C04_short", "short-scaled", deadline_s=c.pick(150, 900), replay=replay, env={"GOMAXPROCS": "1"},
+    c.run_layer(b, "TestVerif_C04_short", "short-scaled", deadline_s=c.pick(240, 900), replay=replay, env={"GOMAXPROCS": "1"},
                 rule="chunkSize scaled to %d so that short lists span 1-3 chunks: every list of <= %d lines x trimming --tail x tiebreak lists "
                      "x 4 queries x sort x tac x distinct slicings for partitions {1,2,3,32} x every order of probing" % (SCALED_CHUNK, c.pick(4, 5)))
 
